@@ -133,7 +133,7 @@ registration of "[]byte"). -/
 theorem build_slice_registered {cfg : Cfg} {d : TyDef} {tag : String} {c : Ty}
     (hs : regLoad cfg (.slice d) tag = none)
     (h : customLoad cfg d "" = some c) (hk : d.kind ≠ .map) :
-    build cfg (.slice d) tag = sliceWrap cfg tag (decide (d.kind = .ptr)) c := by
+    build cfg (.slice d) tag = sliceWrap cfg tag (!d.isFloatKind) c := by
   rw [build]; simp only [hs, hk, ↓reduceIte, build_of_customLoad h]
 
 /-- map key: `CodecForTypeRegistry(registry, typ.Key(), "")`. -/
@@ -157,11 +157,15 @@ theorem ptag_ok {ptag idxS : String} {pfx : Option String} {idx : Int}
     · rfl
     · have : ptag = "" := by simpa using hb
       subst this
+      have h1 : splitComma "" = ("", none) := by decide
+      rw [h1] at hs
       have : idxS = "" := by
         have := congrArg Prod.fst hs
-        simpa [splitComma] using this.symm
+        simpa using this.symm
       subst this
-      simp [atoi] at ha
+      have h2 : atoi "" = none := by decide
+      rw [h2] at ha
+      cases ha
   · cases hb : ptag == "-"
     · rfl
     · have : ptag = "-" := by simpa using hb
@@ -180,16 +184,794 @@ theorem ptag_ok {ptag idxS : String} {pfx : Option String} {idx : Int}
 field's tag option (the part after the comma) is the tag. -/
 theorem buildFields_registered {cfg : Cfg} {g ptag json idxS : String} {pfx : Option String}
     {idx : Int} {d : TyDef} {r : FieldDefs} {c : Ty}
-    (hs : splitComma ptag = (idxS, pfx)) (ha : atoi idxS = some idx) (h0 : 0 ≤ idx)
+    (hs : splitComma ptag = (idxS, pfx)) (ha : atoi idxS = some idx) (h0 : 0 ≤ idx) (hmax : idx ≤ 536870911)
     (hi : pfx ≠ some "intern") (h : customLoad cfg d (pfx.getD "") = some c) :
     buildFields cfg ((g, true, ptag, json, d) :: r) =
       (buildFields cfg r).map fun cfs => (idx.toNat, fieldName g json, c) :: cfs := by
   obtain ⟨e1, e2⟩ := ptag_ok hs ha
   have hi' : (pfx == some "intern") = false := by simpa using hi
-  have h0' : ¬ idx < 0 := by omega
-  rw [buildFields]
+  have h0' : ¬ (idx < 0 ∨ idx > 536870911) := by omega
+  rw [buildFields.eq_def]
   simp only [e1, e2, hs, ha, hi', h0', Bool.not_true, Bool.false_eq_true, ↓reduceIte,
     build_of_customLoad h]
   cases buildFields cfg r <;> rfl
+
+/-- struct field tagged `intern`: the option is stripped (the type is looked up
+under ""), and the codec found is asked for `WithInterning()` — only
+`StringCodec` (and the null.String codec) implement `Interner`, so a registered
+codec that is neither is used as it is. -/
+theorem buildFields_registered_intern {cfg : Cfg} {g ptag json idxS : String}
+    {idx : Int} {d : TyDef} {r : FieldDefs} {c : Ty}
+    (hs : splitComma ptag = (idxS, some "intern")) (ha : atoi idxS = some idx) (h0 : 0 ≤ idx) (hmax : idx ≤ 536870911)
+    (h : customLoad cfg d "" = some c) (h1 : c ≠ .str false) (h2 : c ≠ .ptr (.str false)) :
+    buildFields cfg ((g, true, ptag, json, d) :: r) =
+      (buildFields cfg r).map fun cfs => (idx.toNat, fieldName g json, c) :: cfs := by
+  obtain ⟨e1, e2⟩ := ptag_ok hs ha
+  have h0' : ¬ (idx < 0 ∨ idx > 536870911) := by omega
+  rw [buildFields.eq_def]
+  simp only [e1, e2, hs, ha, h0', Bool.not_true, Bool.false_eq_true, ↓reduceIte, BEq.rfl,
+    build_of_customLoad h]
+  cases buildFields cfg r <;> rfl
+
+/-- … and a type registered with the plain string codec gets the interning one. -/
+theorem buildFields_registered_intern_str {cfg : Cfg} {g ptag json idxS : String}
+    {idx : Int} {d : TyDef} {r : FieldDefs}
+    (hs : splitComma ptag = (idxS, some "intern")) (ha : atoi idxS = some idx) (h0 : 0 ≤ idx) (hmax : idx ≤ 536870911)
+    (h : customLoad cfg d "" = some (.str false)) :
+    buildFields cfg ((g, true, ptag, json, d) :: r) =
+      (buildFields cfg r).map fun cfs => (idx.toNat, fieldName g json, .str true) :: cfs := by
+  obtain ⟨e1, e2⟩ := ptag_ok hs ha
+  have h0' : ¬ (idx < 0 ∨ idx > 536870911) := by omega
+  rw [buildFields.eq_def]
+  simp only [e1, e2, hs, ha, h0', Bool.not_true, Bool.false_eq_true, ↓reduceIte, BEq.rfl,
+    build_of_customLoad h]
+  cases hb : buildFields cfg r <;> simp [Res.map]
+
+/-- the struct arm: `BuildStructCodec` unless the struct type is itself registered
+(under this tag: that codec; under "" only: error). -/
+theorem build_struct_unregistered {cfg : Cfg} {name : String} {fs : FieldDefs} {tag : String}
+    (h : customLoad cfg (.struct name fs) tag = none)
+    (h' : tag = "" ∨ customLoad cfg (.struct name fs) "" = none) :
+    build cfg (.struct name fs) tag =
+      (buildFields cfg fs).bind fun cfs =>
+        if hasDup (cfs.map (·.1)) then .err else .ok (.struct name cfs) := by
+  rw [build]
+  simp only [h]
+  have : (tag != "" && (customLoad cfg (.struct name fs) "").isSome) = false := by
+    rcases h' with h' | h'
+    · subst h'; simp
+    · simp [h']
+  simp only [this, Bool.false_eq_true, ↓reduceIte]
+  cases buildFields cfg fs <;> rfl
+
+/-- a registered type as the only field of a struct: the one-field instance of
+`buildFields_registered` through the struct arm. -/
+theorem build_struct_field_registered {cfg : Cfg} {name g ptag json idxS : String}
+    {pfx : Option String} {idx : Int} {d : TyDef} {c : Ty}
+    (hn : Unregistered cfg name "")
+    (hs : splitComma ptag = (idxS, pfx)) (ha : atoi idxS = some idx) (h0 : 0 ≤ idx) (hmax : idx ≤ 536870911)
+    (hi : pfx ≠ some "intern") (h : customLoad cfg d (pfx.getD "") = some c) :
+    build cfg (.struct name [(g, true, ptag, json, d)]) "" =
+      .ok (.struct name [(idx.toNat, fieldName g json, c)]) := by
+  have hcl : customLoad cfg (.struct name [(g, true, ptag, json, d)]) "" = none := by
+    cases hr : (TyDef.struct name [(g, true, ptag, json, d)]).regName with
+    | none => exact customLoad_none_of_regName hr
+    | some n =>
+      have : n = name := by
+        simp only [TyDef.regName] at hr
+        split at hr
+        · cases hr
+        · exact (Option.some.inj hr).symm
+      subst this
+      exact customLoad_none_of_unregistered hr hn
+  rw [build_struct_unregistered hcl (Or.inl rfl), buildFields_registered hs ha h0 hmax hi h]
+  simp [buildFields, Res.map, Res.bind, hasDup]
+
+/-! ### the recursive call sites of `buildNamed`
+
+`buildNamed` is the kind switch for a defined type; its pointer, slice and map
+arms make the same recursive calls as `build`'s. -/
+
+theorem buildNamed_basic (cfg : Cfg) (n : String) (b : Basic) (tag : String) :
+    buildNamed cfg n (.basic b) tag = build cfg (.basic b) tag := by
+  rw [buildNamed, build]
+
+theorem buildNamed_ptr (cfg : Cfg) (n : String) (t : TyDef) (tag : String) :
+    buildNamed cfg n (.ptr t) tag = build cfg (.ptr t) tag := by
+  rw [buildNamed, build]
+
+theorem buildNamed_map (cfg : Cfg) (n : String) (k v : TyDef) (tag : String) :
+    buildNamed cfg n (.map k v) tag = build cfg (.map k v) tag := by
+  rw [buildNamed, build]
+
+/-- a defined slice type gets the wrapper its element codec calls for — the
+exact-type entries of the registry (`[]byte ↦ BytesCodec`, a user registration
+of "[]byte") do not apply to it. -/
+theorem buildNamed_slice (cfg : Cfg) (n : String) (t : TyDef) (tag : String)
+    (hs : regLoad cfg (.slice t) tag = none) :
+    buildNamed cfg n (.slice t) tag = build cfg (.slice t) tag := by
+  rw [buildNamed, build]; simp only [hs]
+
+theorem buildNamed_named (cfg : Cfg) (n m : String) (t : TyDef) (tag : String) :
+    buildNamed cfg n (.named m t) tag = buildNamed cfg n t tag := by
+  rw [buildNamed]
+
+theorem buildNamed_struct (cfg : Cfg) (n m : String) (fs : FieldDefs) (tag : String) :
+    buildNamed cfg n (.struct m fs) tag =
+      (buildFields cfg fs).bind fun cfs =>
+        if hasDup (cfs.map (·.1)) then .err else .ok (.struct n cfs) := by
+  rw [buildNamed]; cases buildFields cfg fs <;> rfl
+
+/-- pointer target inside a defined pointer type. -/
+theorem buildNamed_ptr_registered {cfg : Cfg} {n : String} {d : TyDef} {tag : String} {c : Ty}
+    (h : customLoad cfg d tag = some c) (hk : d.kind ≠ .map) :
+    buildNamed cfg n (.ptr d) tag = .ok (.ptr c) := by
+  rw [buildNamed_ptr, build_ptr_registered h hk]
+
+/-- slice element inside a defined slice type (no `[]byte` exception here). -/
+theorem buildNamed_slice_registered {cfg : Cfg} {n : String} {d : TyDef} {tag : String} {c : Ty}
+    (h : customLoad cfg d "" = some c) (hk : d.kind ≠ .map) :
+    buildNamed cfg n (.slice d) tag = sliceWrap cfg tag (!d.isFloatKind) c := by
+  rw [buildNamed]; simp only [hk, ↓reduceIte, build_of_customLoad h]
+
+theorem buildNamed_map_key_registered {cfg : Cfg} {n : String} {k v : TyDef} {tag : String} {c vc : Ty}
+    (h : customLoad cfg k "" = some c) (hk : v.kind ≠ .map) (hv : build cfg v "" = .ok vc) :
+    buildNamed cfg n (.map k v) tag = .ok (.map c vc (tag == "proto")) := by
+  rw [buildNamed_map, build_map_key_registered h hk hv]
+
+theorem buildNamed_map_val_registered {cfg : Cfg} {n : String} {k v : TyDef} {tag : String} {c kc : Ty}
+    (h : customLoad cfg v "" = some c) (hk : v.kind ≠ .map) (hkc : build cfg k "" = .ok kc) :
+    buildNamed cfg n (.map k v) tag = .ok (.map kc c (tag == "proto")) := by
+  rw [buildNamed_map, build_map_val_registered h hk hkc]
+
+/-! ### when does a slice type hit the registry -/
+
+theorem regName_slice_ne {t : TyDef} (h : t ≠ .basic (.uint 8)) : (TyDef.slice t).regName = none := by
+  unfold TyDef.regName
+  split <;> simp_all
+
+theorem regLoad_slice_none {cfg : Cfg} {t : TyDef} {tag : String} (h : t ≠ .basic (.uint 8)) :
+    regLoad cfg (.slice t) tag = none := by
+  unfold regLoad
+  rw [customLoad_none_of_regName (regName_slice_ne h)]
+  simp only
+  split <;> simp_all
+
+/-! ### defined types fall back to their kind -/
+
+/-- a defined type without a registration of its own under this tag: the kind switch. -/
+theorem build_named_unregistered {cfg : Cfg} {n : String} {t : TyDef} {tag : String}
+    (h : Unregistered cfg n tag) : build cfg (.named n t) tag = buildNamed cfg n t tag := by
+  rw [build, customLoad_none_of_unregistered (d := .named n t) rfl h]
+
+/-! ### the two options act only at their own sites
+
+`ProtoCompatibleTime` is read once, in `RegisterDefaultCodecs`, to choose the
+codec stored for `time.Time`; `ProtoCompatibleArrays` is read once, in the slice
+arm of `CodecForTypeRegistry`, when the element codec is length-delimited. -/
+
+mutual
+/-- no `time.Time` anywhere in the definition. -/
+def noTime : TyDef → Prop
+  | .time => False
+  | .basic _ | .bad _ | .ext _ => True
+  | .named _ t | .ptr t | .slice t => noTime t
+  | .map k v => noTime k ∧ noTime v
+  | .struct _ fs => fieldsNoTime fs
+def fieldsNoTime : FieldDefs → Prop
+  | [] => True
+  | (_, _, _, _, t) :: r => noTime t ∧ fieldsNoTime r
+end
+
+mutual
+/-- no slice whose element codec (as built under `cfg`) is length-delimited. -/
+def arraysStable (cfg : Cfg) : TyDef → Prop
+  | .basic _ | .time | .bad _ | .ext _ => True
+  | .named _ t | .ptr t => arraysStable cfg t
+  | .slice t => arraysStable cfg t ∧ ∀ c, build cfg t "" = .ok c → c.wt ≠ .len
+  | .map k v => arraysStable cfg k ∧ arraysStable cfg v
+  | .struct _ fs => fieldsStable cfg fs
+def fieldsStable (cfg : Cfg) : FieldDefs → Prop
+  | [] => True
+  | (_, _, _, _, t) :: r => arraysStable cfg t ∧ fieldsStable cfg r
+end
+
+theorem customLoad_options (cfg : Cfg) (a b : Bool) (d : TyDef) (tag : String) :
+    customLoad { cfg with protoArrays := a, protoTime := b } d tag = customLoad cfg d tag := rfl
+
+/-- `registry.Load` does not read `ProtoCompatibleArrays` at all … -/
+theorem regLoad_protoArrays (cfg : Cfg) (a : Bool) (d : TyDef) (tag : String) :
+    regLoad { cfg with protoArrays := a } d tag = regLoad cfg d tag := rfl
+
+/-- … and sees `ProtoCompatibleTime` only in the entry of `time.Time` itself. -/
+theorem regLoad_protoTime (cfg : Cfg) (b : Bool) (d : TyDef) (tag : String) (h : d ≠ .time) :
+    regLoad { cfg with protoTime := b } d tag = regLoad cfg d tag := by
+  unfold regLoad
+  rw [show customLoad { cfg with protoTime := b } d tag = customLoad cfg d tag from rfl]
+  cases customLoad cfg d tag with
+  | some c => rfl
+  | none =>
+    simp only
+    split <;> first | rfl | exact absurd rfl h
+
+/-- the slice wrapper choice reads `ProtoCompatibleArrays` only for
+length-delimited elements (and not even then under the `proto` tag). -/
+theorem sliceWrap_protoArrays (cfg : Cfg) (a : Bool) (tag : String) (ep : Bool) (c : Ty)
+    (h : c.wt ≠ .len ∨ tag = "proto") :
+    sliceWrap { cfg with protoArrays := a } tag ep c = sliceWrap cfg tag ep c := by
+  unfold sliceWrap
+  rcases h with h | h
+  · cases hw : c.wt <;> simp_all
+  · subst h; cases hw : c.wt <;> simp
+
+theorem sliceWrap_protoTime (cfg : Cfg) (b : Bool) (tag : String) (ep : Bool) (c : Ty) :
+    sliceWrap { cfg with protoTime := b } tag ep c = sliceWrap cfg tag ep c := rfl
+
+mutual
+theorem build_protoTime (cfg : Cfg) (b : Bool) : ∀ (d : TyDef) (tag : String), noTime d →
+    build { cfg with protoTime := b } d tag = build cfg d tag
+  | .basic x, tag, _ => by
+    rw [build, build, regLoad_protoTime cfg b _ tag (by simp)]
+  | .time, _, h => by simp [noTime] at h
+  | .ext n, tag, _ => by
+    rw [build, build, regLoad_protoTime cfg b _ tag (by simp)]
+  | .bad k, tag, _ => by rw [build, build]
+  | .named n t, tag, h => by
+    have ih := buildNamed_protoTime cfg b n t tag (by simpa [noTime] using h)
+    rw [build, build, ih]; rfl
+  | .ptr t, tag, h => by
+    have ih := build_protoTime cfg b t tag (by simpa [noTime] using h)
+    rw [build, build, ih]
+  | .slice t, tag, h => by
+    have ih := build_protoTime cfg b t "" (by simpa [noTime] using h)
+    rw [build, build, ih, regLoad_protoTime cfg b _ tag (by simp)]; rfl
+  | .map k v, tag, h => by
+    have h' : noTime k ∧ noTime v := by simpa [noTime] using h
+    have ih1 := build_protoTime cfg b k "" h'.1
+    have ih2 := build_protoTime cfg b v "" h'.2
+    rw [build, build, ih1, ih2]
+  | .struct name fs, tag, h => by
+    have ih := buildFields_protoTime cfg b fs (by simpa [noTime] using h)
+    rw [build, build, ih]; rfl
+theorem buildNamed_protoTime (cfg : Cfg) (b : Bool) (n : String) : ∀ (d : TyDef) (tag : String), noTime d →
+    buildNamed { cfg with protoTime := b } n d tag = buildNamed cfg n d tag
+  | .basic x, tag, _ => by
+    rw [buildNamed, buildNamed, regLoad_protoTime cfg b _ tag (by simp)]
+  | .time, _, h => by simp [noTime] at h
+  | .ext _, tag, _ => by rw [buildNamed, buildNamed]
+  | .bad k, tag, _ => by rw [buildNamed, buildNamed]
+  | .named m t, tag, h => by
+    have ih := buildNamed_protoTime cfg b n t tag (by simpa [noTime] using h)
+    rw [buildNamed, buildNamed, ih]
+  | .ptr t, tag, h => by
+    have ih := build_protoTime cfg b t tag (by simpa [noTime] using h)
+    rw [buildNamed, buildNamed, ih]
+  | .slice t, tag, h => by
+    have ih := build_protoTime cfg b t "" (by simpa [noTime] using h)
+    rw [buildNamed, buildNamed, ih]; rfl
+  | .map k v, tag, h => by
+    have h' : noTime k ∧ noTime v := by simpa [noTime] using h
+    have ih1 := build_protoTime cfg b k "" h'.1
+    have ih2 := build_protoTime cfg b v "" h'.2
+    rw [buildNamed, buildNamed, ih1, ih2]
+  | .struct name fs, tag, h => by
+    have ih := buildFields_protoTime cfg b fs (by simpa [noTime] using h)
+    rw [buildNamed, buildNamed, ih]
+theorem buildFields_protoTime (cfg : Cfg) (b : Bool) : ∀ (fs : FieldDefs), fieldsNoTime fs →
+    buildFields { cfg with protoTime := b } fs = buildFields cfg fs
+  | [], _ => by rw [buildFields, buildFields]
+  | (g, e, ptag, json, t) :: r, h => by
+    have h' : noTime t ∧ fieldsNoTime r := by simpa [fieldsNoTime] using h
+    have ih1 := fun tag => build_protoTime cfg b t tag h'.1
+    have ih2 := buildFields_protoTime cfg b r h'.2
+    rw [buildFields.eq_def, buildFields.eq_def]
+    simp only [ih1, ih2]
+end
+
+mutual
+theorem build_protoArrays (cfg : Cfg) (a : Bool) : ∀ (d : TyDef) (tag : String), arraysStable cfg d →
+    build { cfg with protoArrays := a } d tag = build cfg d tag
+  | .basic x, tag, _ => by rw [build, build]; rfl
+  | .time, tag, _ => by rw [build, build]; rfl
+  | .ext n, tag, _ => by rw [build, build]; rfl
+  | .bad k, tag, _ => by rw [build, build]
+  | .named n t, tag, h => by
+    have ih := buildNamed_protoArrays cfg a n t tag (by simpa [arraysStable] using h)
+    rw [build, build, ih]; rfl
+  | .ptr t, tag, h => by
+    have ih := build_protoArrays cfg a t tag (by simpa [arraysStable] using h)
+    rw [build, build, ih]
+  | .slice t, tag, h => by
+    have h' : arraysStable cfg t ∧ ∀ c, build cfg t "" = .ok c → c.wt ≠ .len := by
+      simpa [arraysStable] using h
+    have ih := build_protoArrays cfg a t "" h'.1
+    rw [build, build, ih, regLoad_protoArrays]
+    cases hb : build cfg t "" with
+    | ok c => simp only [sliceWrap_protoArrays cfg a tag _ c (Or.inl (h'.2 c hb))]
+    | _ => rfl
+  | .map k v, tag, h => by
+    have h' : arraysStable cfg k ∧ arraysStable cfg v := by simpa [arraysStable] using h
+    have ih1 := build_protoArrays cfg a k "" h'.1
+    have ih2 := build_protoArrays cfg a v "" h'.2
+    rw [build, build, ih1, ih2]
+  | .struct name fs, tag, h => by
+    have ih := buildFields_protoArrays cfg a fs (by simpa [arraysStable] using h)
+    rw [build, build, ih]; rfl
+theorem buildNamed_protoArrays (cfg : Cfg) (a : Bool) (n : String) : ∀ (d : TyDef) (tag : String),
+    arraysStable cfg d → buildNamed { cfg with protoArrays := a } n d tag = buildNamed cfg n d tag
+  | .basic x, tag, _ => by rw [buildNamed, buildNamed]; rfl
+  | .time, tag, _ => by rw [buildNamed, buildNamed]
+  | .ext _, tag, _ => by rw [buildNamed, buildNamed]
+  | .bad k, tag, _ => by rw [buildNamed, buildNamed]
+  | .named m t, tag, h => by
+    have ih := buildNamed_protoArrays cfg a n t tag (by simpa [arraysStable] using h)
+    rw [buildNamed, buildNamed, ih]
+  | .ptr t, tag, h => by
+    have ih := build_protoArrays cfg a t tag (by simpa [arraysStable] using h)
+    rw [buildNamed, buildNamed, ih]
+  | .slice t, tag, h => by
+    have h' : arraysStable cfg t ∧ ∀ c, build cfg t "" = .ok c → c.wt ≠ .len := by
+      simpa [arraysStable] using h
+    have ih := build_protoArrays cfg a t "" h'.1
+    rw [buildNamed, buildNamed, ih]
+    cases hb : build cfg t "" with
+    | ok c => simp only [sliceWrap_protoArrays cfg a tag _ c (Or.inl (h'.2 c hb))]
+    | _ => rfl
+  | .map k v, tag, h => by
+    have h' : arraysStable cfg k ∧ arraysStable cfg v := by simpa [arraysStable] using h
+    have ih1 := build_protoArrays cfg a k "" h'.1
+    have ih2 := build_protoArrays cfg a v "" h'.2
+    rw [buildNamed, buildNamed, ih1, ih2]
+  | .struct name fs, tag, h => by
+    have ih := buildFields_protoArrays cfg a fs (by simpa [arraysStable] using h)
+    rw [buildNamed, buildNamed, ih]
+theorem buildFields_protoArrays (cfg : Cfg) (a : Bool) : ∀ (fs : FieldDefs), fieldsStable cfg fs →
+    buildFields { cfg with protoArrays := a } fs = buildFields cfg fs
+  | [], _ => by rw [buildFields, buildFields]
+  | (g, e, ptag, json, t) :: r, h => by
+    have h' : arraysStable cfg t ∧ fieldsStable cfg r := by simpa [fieldsStable] using h
+    have ih1 := fun tag => build_protoArrays cfg a t tag h'.1
+    have ih2 := buildFields_protoArrays cfg a r h'.2
+    rw [buildFields.eq_def, buildFields.eq_def]
+    simp only [ih1, ih2]
+end
+
+/-- **options are local**: a definition with no `time.Time` and no slice of
+length-delimited elements builds to the same codec under all four option
+combinations. -/
+theorem build_options_local (cfg : Cfg) (a b : Bool) (d : TyDef) (tag : String)
+    (ht : noTime d) (hs : arraysStable cfg d) :
+    build { cfg with protoArrays := a, protoTime := b } d tag = build cfg d tag := by
+  have h1 := build_protoTime { cfg with protoArrays := a } b d tag ht
+  have h2 := build_protoArrays cfg a d tag hs
+  exact h1.trans h2
+
+/-! ## Part B — the multi-instance machine -/
+
+theorem step_of_inst {w : World} {o : Op} {j : Nat} (h : o.inst = some j) : step w o = onInst w j o := by
+  cases o <;> simp only [Op.inst, Option.some.injEq, reduceCtorEq] at h <;> subst h <;> rfl
+
+theorem step_new (w : World) (a b : Bool) :
+    step w (.newInstance a b) = (w ++ [Inst.fresh a b], .created w.length) := rfl
+
+theorem inst_none {o : Op} (h : o.inst = none) : ∃ a b, o = .newInstance a b := by
+  cases o <;> simp [Op.inst] at h
+  exact ⟨_, _, rfl⟩
+
+theorem onInst_length (w : World) (j : Nat) (o : Op) : (onInst w j o).1.length = w.length := by
+  unfold onInst; split <;> simp
+
+theorem onInst_get_ne (w : World) {i j : Nat} (o : Op) (h : j ≠ i) : (onInst w j o).1[i]? = w[i]? := by
+  unfold onInst; split
+  · rfl
+  · simp [List.getElem?_set_ne h]
+
+theorem onInst_get_self {w : World} {i : Nat} {s : Inst} (o : Op) (h : w[i]? = some s) :
+    onInst w i o = (w.set i (apply s o).1, (apply s o).2) := by
+  unfold onInst; rw [h]
+
+/-- the id of the addressed instance plays no role in what the op does. -/
+theorem apply_retarget (s : Inst) (o : Op) (j : Nat) : apply s (o.retarget j) = apply s o := by
+  cases o <;> rfl
+
+theorem retarget_inst {o : Op} {i : Nat} (h : o.inst = some i) (j : Nat) : (o.retarget j).inst = some j := by
+  cases o <;> simp [Op.inst] at h <;> rfl
+
+/-- **the local-run theorem**: an instance that exists evolves exactly as the
+single-instance machine fed with the ops addressed to it — whatever else is in
+the script (ops on other instances, creation of instances with any options). -/
+theorem run_local (i : Nat) : ∀ (ops : List Op) (w : World) (s : Inst), w[i]? = some s →
+    (run ops w).1[i]? = some (runInst s (ops.filter fun o => o.inst = some i)).1 ∧
+    outsAt i ops (run ops w).2 = (runInst s (ops.filter fun o => o.inst = some i)).2
+  | [], w, s, h => by simp [run, runInst, outsAt, h]
+  | o :: ops, w, s, h => by
+    cases ho : o.inst with
+    | none =>
+      obtain ⟨a, b, rfl⟩ := inst_none ho
+      have hlt : i < w.length := by
+        rcases Nat.lt_or_ge i w.length with h' | h'
+        · exact h'
+        · rw [List.getElem?_eq_none h'] at h; cases h
+      have h' : (step w (.newInstance a b)).1[i]? = some s := by
+        rw [step_new]; simp only; rw [List.getElem?_append_left hlt]; exact h
+      have ih := run_local i ops _ s h'
+      simp only [run, outsAt, ho, List.filter_cons, reduceCtorEq, decide_false, Bool.false_eq_true,
+        ↓reduceIte]
+      exact ih
+    | some j =>
+      rw [show run (o :: ops) w = ((run ops (step w o).1).1, (step w o).2 :: (run ops (step w o).1).2) from rfl,
+        step_of_inst ho]
+      by_cases hj : j = i
+      · subst hj
+        rw [onInst_get_self o h]
+        have h' : (w.set j (apply s o).1)[j]? = some (apply s o).1 := by
+          have hlt : j < w.length := by
+            rcases Nat.lt_or_ge j w.length with h' | h'
+            · exact h'
+            · rw [List.getElem?_eq_none h'] at h; cases h
+          simp [hlt]
+        have ih := run_local j ops _ _ h'
+        simp only [outsAt, ho, List.filter_cons, decide_true, ↓reduceIte, runInst]
+        exact ⟨ih.1, by rw [ih.2]⟩
+      · have h' : (onInst w j o).1[i]? = some s := by rw [onInst_get_ne w o hj]; exact h
+        have ih := run_local i ops _ s h'
+        have hne : ¬ (some j = some i) := fun e => hj (Option.some.inj e)
+        simp only [outsAt, ho, List.filter_cons, hne, decide_false, Bool.false_eq_true, ↓reduceIte]
+        exact ih
+
+theorem filter_inst_idem (i : Nat) (ops : List Op) :
+    (ops.filter fun o => o.inst = some i).filter (fun o => o.inst = some i) =
+      ops.filter fun o => o.inst = some i := by
+  simp [List.filter_filter]
+
+/-- **instance isolation** for an instance that exists at the start: the ops
+addressed to other instances, and the creation of other instances, are invisible. -/
+theorem instance_isolation (i : Nat) (ops : List Op) (w : World) (hi : i < w.length) :
+    outsAt i ops (run ops w).2 =
+      outsAt i (ops.filter fun o => o.inst = some i) (run (ops.filter fun o => o.inst = some i) w).2 := by
+  have hs : w[i]? = some w[i] := List.getElem?_eq_getElem hi
+  rw [(run_local i ops w _ hs).2, (run_local i _ w _ hs).2, filter_inst_idem]
+
+/-- … and its final state is the same too. -/
+theorem instance_isolation_state (i : Nat) (ops : List Op) (w : World) (hi : i < w.length) :
+    (run ops w).1[i]? = (run (ops.filter fun o => o.inst = some i) w).1[i]? := by
+  have hs : w[i]? = some w[i] := List.getElem?_eq_getElem hi
+  rw [(run_local i ops w _ hs).1, (run_local i _ w _ hs).1, filter_inst_idem]
+
+theorem run_cons (o : Op) (ops : List Op) (w : World) :
+    run (o :: ops) w = ((run ops (step w o).1).1, (step w o).2 :: (run ops (step w o).1).2) := rfl
+
+theorem outsAt_cons_eq {i : Nat} {o : Op} (ops : List Op) (x : Out) (outs : List Out) (h : o.inst = some i) :
+    outsAt i (o :: ops) (x :: outs) = x :: outsAt i ops outs := by
+  simp only [outsAt, h, ↓reduceIte]
+
+theorem outsAt_cons_ne {i : Nat} {o : Op} (ops : List Op) (x : Out) (outs : List Out) (h : o.inst ≠ some i) :
+    outsAt i (o :: ops) (x :: outs) = outsAt i ops outs := by
+  simp only [outsAt, h, ↓reduceIte]
+
+/-- the general form, for instances created during the run as well: two worlds
+that agree on the number of instances (ids are allocated in creation order) and
+on instance `i`; on one side only the creations and the ops addressed to `i` run. -/
+theorem isolation_two_worlds (i : Nat) : ∀ (ops : List Op) (w w' : World),
+    w.length = w'.length → w[i]? = w'[i]? →
+    outsAt i ops (run ops w).2 =
+      outsAt i (ops.filter fun o => o.inst = some i || o.inst = none)
+        (run (ops.filter fun o => o.inst = some i || o.inst = none) w').2
+  | [], _, _, _, _ => by simp [run, outsAt]
+  | o :: ops, w, w', hl, hg => by
+    cases ho : o.inst with
+    | none =>
+      have hf : ((o :: ops).filter fun o => o.inst = some i || o.inst = none) =
+          o :: ops.filter fun o => o.inst = some i || o.inst = none := by
+        simp [ho]
+      have hne : o.inst ≠ some i := by rw [ho]; exact fun e => by cases e
+      obtain ⟨a, b, rfl⟩ := inst_none ho
+      have hl' : (w ++ [Inst.fresh a b]).length = (w' ++ [Inst.fresh a b]).length := by simp [hl]
+      have hg' : (w ++ [Inst.fresh a b])[i]? = (w' ++ [Inst.fresh a b])[i]? := by
+        simp only [List.getElem?_append, hl, hg]
+      have ih := isolation_two_worlds i ops _ _ hl' hg'
+      rw [hf, run_cons, run_cons, outsAt_cons_ne _ _ _ hne, outsAt_cons_ne _ _ _ hne, step_new, step_new]
+      exact ih
+    | some j =>
+      by_cases hj : j = i
+      · subst hj
+        have hf : ((o :: ops).filter fun o => o.inst = some j || o.inst = none) =
+            o :: ops.filter fun o => o.inst = some j || o.inst = none := by
+          simp [ho]
+        rw [hf, run_cons, run_cons, outsAt_cons_eq _ _ _ ho, outsAt_cons_eq _ _ _ ho,
+          step_of_inst ho, step_of_inst ho]
+        cases hw : w[j]? with
+        | none =>
+          have hw' : w'[j]? = none := by rw [← hg]; exact hw
+          have e1 : onInst w j o = (w, .noInst) := by unfold onInst; rw [hw]
+          have e2 : onInst w' j o = (w', .noInst) := by unfold onInst; rw [hw']
+          rw [e1, e2]
+          simp only [isolation_two_worlds j ops w w' hl hg]
+        | some s =>
+          have hw' : w'[j]? = some s := by rw [← hg]; exact hw
+          rw [onInst_get_self o hw, onInst_get_self o hw']
+          have hl' : (w.set j (apply s o).1).length = (w'.set j (apply s o).1).length := by simp [hl]
+          have hg' : (w.set j (apply s o).1)[j]? = (w'.set j (apply s o).1)[j]? := by
+            simp [List.getElem?_set, hl]
+          simp only [isolation_two_worlds j ops _ _ hl' hg']
+      · have hne : o.inst ≠ some i := by rw [ho]; exact fun e => hj (Option.some.inj e)
+        have hf : ((o :: ops).filter fun o => o.inst = some i || o.inst = none) =
+            ops.filter fun o => o.inst = some i || o.inst = none := by
+          have : ¬ (some j = some i) := fun e => hj (Option.some.inj e)
+          simp [ho, this]
+        rw [hf, run_cons, outsAt_cons_ne _ _ _ hne, step_of_inst ho]
+        exact isolation_two_worlds i ops _ w' (by rw [onInst_length, hl])
+          (by rw [onInst_get_ne w o hj, hg])
+
+/-- **instance isolation, any instance** (also one the script itself creates):
+drop every op addressed to another instance. -/
+theorem instance_isolation_created (i : Nat) (ops : List Op) (w : World) :
+    outsAt i ops (run ops w).2 =
+      outsAt i (ops.filter fun o => o.inst = some i || o.inst = none)
+        (run (ops.filter fun o => o.inst = some i || o.inst = none) w).2 :=
+  isolation_two_worlds i ops w w rfl rfl
+
+/-- the options given to OTHER instances at their creation are invisible too:
+two scripts that differ only in the options of the instances they create, seen
+from an instance that already exists. -/
+theorem creation_options_invisible (i : Nat) (ops ops' : List Op) (w : World) (hi : i < w.length)
+    (h : (ops.filter fun o => o.inst = some i) = ops'.filter fun o => o.inst = some i) :
+    outsAt i ops (run ops w).2 = outsAt i ops' (run ops' w).2 := by
+  rw [instance_isolation i ops w hi, instance_isolation i ops' w hi, h]
+
+theorem runInst_retarget (j : Nat) : ∀ (ops : List Op) (s : Inst),
+    runInst s (ops.map (Op.retarget j)) = runInst s ops
+  | [], _ => rfl
+  | o :: ops, s => by
+    simp only [List.map_cons, runInst, apply_retarget, runInst_retarget j ops]
+
+theorem filter_retarget (i j : Nat) : ∀ (ops : List Op),
+    ((ops.filter fun o => o.inst = some i).map (Op.retarget j)).filter (fun o => o.inst = some j) =
+      (ops.filter fun o => o.inst = some i).map (Op.retarget j)
+  | [] => rfl
+  | o :: ops => by
+    by_cases h : o.inst = some i
+    · simp only [List.filter_cons, h, decide_true, ↓reduceIte, List.map_cons, retarget_inst h j,
+        filter_retarget i j ops]
+    · simp only [List.filter_cons, h, decide_false, Bool.false_eq_true, ↓reduceIte, filter_retarget i j ops]
+
+/-- **the package-level functions are a default-configured instance**: whatever a
+script does (to the default instance and to others), the answers the
+package-level functions give are the answers a freshly created instance with
+both options off gives to the same calls. -/
+theorem default_is_default (ops : List Op) :
+    outsAt 0 ops (run ops init).2 =
+      outsAt 1 (.newInstance false false :: (ops.filter fun o => o.inst = some 0).map (Op.retarget 1))
+        (run (.newInstance false false :: (ops.filter fun o => o.inst = some 0).map (Op.retarget 1)) init).2 := by
+  have h0 : init[0]? = some (Inst.fresh false false) := rfl
+  rw [(run_local 0 ops init _ h0).2]
+  have h1 : (step init (.newInstance false false)).1[1]? = some (Inst.fresh false false) := rfl
+  have hne : (Op.newInstance false false).inst ≠ some 1 := fun e => by cases e
+  rw [run_cons, outsAt_cons_ne _ _ _ hne, (run_local 1 _ _ _ h1).2, filter_retarget, runInst_retarget]
+
+/-! ### the modelled fragment: registration before use -/
+
+/-- every instance on which `CodecForType` has run is listed in `used`. -/
+def UsedIn (used : List Nat) (w : World) : Prop :=
+  ∀ i s, w[i]? = some s → s.used = true → i ∈ used
+
+theorem usedIn_init : UsedIn [] init := by
+  intro i s h hu
+  cases i with
+  | zero => simp only [init, List.getElem?_cons_zero, Option.some.injEq] at h; subst h; cases hu
+  | succ k => simp [init] at h
+
+theorem usedIn_append_fresh {used : List Nat} {w : World} (a b : Bool) (h : UsedIn used w) :
+    UsedIn used (w ++ [Inst.fresh a b]) := by
+  intro i s hs hu
+  rw [List.getElem?_append] at hs
+  split at hs
+  · exact h i s hs hu
+  · cases hk : i - w.length with
+    | zero => rw [hk] at hs; simp only [List.getElem?_cons_zero, Option.some.injEq] at hs; subst hs; cases hu
+    | succ k => rw [hk] at hs; simp at hs
+
+theorem usedIn_set_same {used : List Nat} {w : World} {j : Nat} {s s' : Inst}
+    (hj : w[j]? = some s) (hu : s'.used = s.used) (h : UsedIn used w) : UsedIn used (w.set j s') := by
+  intro i t ht hut
+  by_cases hij : j = i
+  · subst hij
+    have hlt : j < w.length := by
+      rcases Nat.lt_or_ge j w.length with h' | h'
+      · exact h'
+      · rw [List.getElem?_eq_none h'] at hj; cases hj
+    simp only [List.getElem?_set_self hlt, Option.some.injEq] at ht
+    subst ht
+    exact h j s hj (hu ▸ hut)
+  · rw [List.getElem?_set_ne hij] at ht
+    exact h i t ht hut
+
+theorem usedIn_set_used {used : List Nat} {w : World} (j : Nat) (s' : Inst) (h : UsedIn used w) :
+    UsedIn (j :: used) (w.set j s') := by
+  intro i t ht hut
+  by_cases hij : j = i
+  · subst hij; exact List.mem_cons_self
+  · rw [List.getElem?_set_ne hij] at ht
+    exact List.mem_cons_of_mem _ (h i t ht hut)
+
+theorem usedIn_cons {used : List Nat} {w : World} (j : Nat) (h : UsedIn used w) : UsedIn (j :: used) w :=
+  fun i s hs hu => List.mem_cons_of_mem _ (h i s hs hu)
+
+/-- a script that registers before use never leaves the modelled fragment: no
+`register`/`addNull` answers `late`. -/
+theorem no_late : ∀ (ops : List Op) (used : List Nat) (w : World),
+    UsedIn used w → regBeforeUse used ops = true → Out.late ∉ (run ops w).2
+  | [], _, _, _, _ => by simp [run]
+  | o :: ops, used, w, hu, hr => by
+    rw [run_cons]
+    intro hmem
+    rcases List.mem_cons.mp hmem with hhead | htail
+    · -- the head output is `late`
+      cases o with
+      | newInstance a b => rw [step_new] at hhead; cases hhead
+      | register i n tag c =>
+        simp only [regBeforeUse, Bool.and_eq_true, Bool.not_eq_true', List.contains_eq_mem,
+          decide_eq_false_iff_not] at hr
+        rw [step_of_inst (j := i) rfl] at hhead
+        unfold onInst at hhead
+        cases hw : w[i]? with
+        | none => rw [hw] at hhead; cases hhead
+        | some s =>
+          rw [hw] at hhead
+          cases hsu : s.used with
+          | false => simp [apply, hsu] at hhead
+          | true => exact hr.1 (hu i s hw hsu)
+      | addNull i =>
+        simp only [regBeforeUse, Bool.and_eq_true, Bool.not_eq_true', List.contains_eq_mem,
+          decide_eq_false_iff_not] at hr
+        rw [step_of_inst (j := i) rfl] at hhead
+        unfold onInst at hhead
+        cases hw : w[i]? with
+        | none => rw [hw] at hhead; cases hhead
+        | some s =>
+          rw [hw] at hhead
+          cases hsu : s.used with
+          | false => simp [apply, hsu] at hhead
+          | true => exact hr.1 (hu i s hw hsu)
+      | marshal i d v =>
+        rw [step_of_inst (j := i) rfl] at hhead
+        unfold onInst at hhead
+        cases hw : w[i]? <;> rw [hw] at hhead <;> cases hhead
+      | unmarshal i d b p =>
+        rw [step_of_inst (j := i) rfl] at hhead
+        unfold onInst at hhead
+        cases hw : w[i]? <;> rw [hw] at hhead <;> cases hhead
+      | codecFor i d tag =>
+        rw [step_of_inst (j := i) rfl] at hhead
+        unfold onInst at hhead
+        cases hw : w[i]? <;> rw [hw] at hhead <;> cases hhead
+    · -- the tail
+      revert htail
+      cases o with
+      | newInstance a b =>
+        rw [step_new]
+        exact no_late ops used _ (usedIn_append_fresh a b hu) (by simpa [regBeforeUse] using hr)
+      | register i n tag c =>
+        simp only [regBeforeUse, Bool.and_eq_true] at hr
+        rw [step_of_inst (j := i) rfl]
+        unfold onInst
+        cases hw : w[i]? with
+        | none => exact no_late ops used w hu hr.2
+        | some s => exact no_late ops used _ (usedIn_set_same hw rfl hu) hr.2
+      | addNull i =>
+        simp only [regBeforeUse, Bool.and_eq_true] at hr
+        rw [step_of_inst (j := i) rfl]
+        unfold onInst
+        cases hw : w[i]? with
+        | none => exact no_late ops used w hu hr.2
+        | some s => exact no_late ops used _ (usedIn_set_same hw rfl hu) hr.2
+      | marshal i d v =>
+        simp only [regBeforeUse] at hr
+        rw [step_of_inst (j := i) rfl]
+        unfold onInst
+        cases hw : w[i]? with
+        | none => exact no_late ops _ w (usedIn_cons i hu) hr
+        | some s => exact no_late ops _ _ (usedIn_set_used i _ hu) hr
+      | unmarshal i d b p =>
+        simp only [regBeforeUse] at hr
+        rw [step_of_inst (j := i) rfl]
+        unfold onInst
+        cases hw : w[i]? with
+        | none => exact no_late ops _ w (usedIn_cons i hu) hr
+        | some s => exact no_late ops _ _ (usedIn_set_used i _ hu) hr
+      | codecFor i d tag =>
+        simp only [regBeforeUse] at hr
+        rw [step_of_inst (j := i) rfl]
+        unfold onInst
+        cases hw : w[i]? with
+        | none => exact no_late ops _ w (usedIn_cons i hu) hr
+        | some s => exact no_late ops _ _ (usedIn_set_used i _ hu) hr
+
+/-- from program start. -/
+theorem no_late_init (ops : List Op) (h : regBeforeUse [] ops = true) : Out.late ∉ (run ops init).2 :=
+  no_late ops [] init usedIn_init h
+
+/-! ### registered wins, at the level of scripts -/
+
+/-- does the op store something under the key `(n, tag)`. -/
+def Op.touchesKey (n tag : String) : Op → Bool
+  | .register _ n' tag' _ => n' == n && tag' == tag
+  | .addNull _ => nullRegs.any fun e => e.1 == n && e.2.1 == tag
+  | _ => false
+
+theorem lastReg_append {cfg : Cfg} {n tag : String} {c : Ty} (more : List (String × String × Ty))
+    (hm : ∀ e ∈ more, ¬ (e.1 = n ∧ e.2.1 = tag)) (cfg' : Cfg) (hc : cfg'.custom = cfg.custom ++ more)
+    (h : LastReg cfg n tag c) : LastReg cfg' n tag c := by
+  obtain ⟨pre, post, hcu, hp⟩ := h
+  refine ⟨pre, post ++ more, by rw [hc, hcu]; simp, ?_⟩
+  intro e he
+  rcases List.mem_append.mp he with h1 | h1
+  · exact hp e h1
+  · exact hm e h1
+
+theorem apply_lastReg {s : Inst} {o : Op} {n tag : String} {c : Ty}
+    (ht : Op.touchesKey n tag o = false) (h : LastReg s.cfg n tag c) : LastReg (apply s o).1.cfg n tag c := by
+  cases o with
+  | newInstance a b => exact h
+  | marshal i d v => exact h
+  | unmarshal i d b p => exact h
+  | codecFor i d t => exact h
+  | register i n' tag' c' =>
+    refine lastReg_append [(n', tag', c')] ?_ _ rfl h
+    intro e he
+    simp only [List.mem_singleton] at he
+    subst he
+    simpa [Op.touchesKey] using ht
+  | addNull i =>
+    refine lastReg_append nullRegs ?_ _ rfl h
+    intro e he hk
+    simp only [Op.touchesKey, List.any_eq_false, Bool.and_eq_true, beq_iff_eq] at ht
+    exact ht e he hk
+
+theorem runInst_lastReg {n tag : String} {c : Ty} : ∀ (ops : List Op) (s : Inst),
+    (∀ o ∈ ops, Op.touchesKey n tag o = false) → LastReg s.cfg n tag c →
+    LastReg (runInst s ops).1.cfg n tag c
+  | [], _, _, h => h
+  | o :: ops, s, ht, h => by
+    rw [runInst]
+    exact runInst_lastReg ops _ (fun x hx => ht x (List.mem_cons_of_mem _ hx))
+      (apply_lastReg (ht o List.mem_cons_self) h)
+
+/-- the state of instance `i` after `register i n tag c` followed by any ops
+that do not store under the same key on that instance: `(n, tag, c)` is its
+last registration of the key. -/
+theorem lastReg_after_register (i : Nat) (w : World) (hi : i < w.length) (n tag : String) (c : Ty)
+    (mid : List Op) (hmid : ∀ o ∈ mid, o.inst = some i → Op.touchesKey n tag o = false) :
+    ∃ s, (run (.register i n tag c :: mid) w).1[i]? = some s ∧ LastReg s.cfg n tag c := by
+  have hs : w[i]? = some w[i] := List.getElem?_eq_getElem hi
+  refine ⟨_, (run_local i _ w _ hs).1, ?_⟩
+  have hf : ((Op.register i n tag c :: mid).filter fun o => o.inst = some i) =
+      .register i n tag c :: mid.filter fun o => o.inst = some i := by
+    simp [Op.inst]
+  rw [hf, runInst]
+  refine runInst_lastReg _ _ ?_ (lastReg_register _ n tag c)
+  intro o ho
+  have := List.mem_filter.mp ho
+  exact hmid o this.1 (by simpa using this.2)
+
+/-- **registered wins in a world**: after `register i n tag c` — and whatever
+happens on other instances, and on this one under other keys —
+`CodecForTypeWithTag` of a type named `n` under `tag` answers `c`, and `Marshal`
+of such a value (tag "") encodes with `c`. -/
+theorem world_registered_wins (i : Nat) (w : World) (hi : i < w.length) (n tag : String) (c : Ty)
+    (mid : List Op) (hmid : ∀ o ∈ mid, o.inst = some i → Op.touchesKey n tag o = false)
+    (d : TyDef) (hd : d.regName = some n) :
+    (step (run (.register i n tag c :: mid) w).1 (.codecFor i d tag)).2 = .codec (.ok c) := by
+  obtain ⟨s, hs, hl⟩ := lastReg_after_register i w hi n tag c mid hmid
+  rw [step_of_inst (j := i) rfl, onInst_get_self _ hs]
+  simp only [apply, build_of_customLoad (customLoad_of_last hd hl)]
+
+theorem world_registered_wins_marshal (i : Nat) (w : World) (hi : i < w.length) (n : String) (c : Ty)
+    (mid : List Op) (hmid : ∀ o ∈ mid, o.inst = some i → Op.touchesKey n "" o = false)
+    (d : TyDef) (hd : d.regName = some n) (v : Val) :
+    (step (run (.register i n "" c :: mid) w).1 (.marshal i d v)).2 = .bytes (.ok (marshal c v)) := by
+  obtain ⟨s, hs, hl⟩ := lastReg_after_register i w hi n "" c mid hmid
+  rw [step_of_inst (j := i) rfl, onInst_get_self _ hs]
+  simp only [apply, marshalWith, build_of_customLoad (customLoad_of_last hd hl)]
 
 end World
